@@ -15,6 +15,8 @@ static std::string tmpdir() { static std::string d; if (d.empty()) { const char 
 struct Spawned { int status = -1; std::string out; bool ok = false; };
 static Spawned spawn(const std::vector<std::string> &argv, const std::string &stdin_data, bool use_stdin) {
   Spawned r; int inp[2], outp[2]; if (pipe(inp) || pipe(outp)) return r;
+  // keep the pipe ends away from the standard descriptors whatever the environment looks like
+  for (int *fd : {&inp[0], &inp[1], &outp[0], &outp[1]}) { int hi = fcntl(*fd, F_DUPFD_CLOEXEC, 20); if (hi >= 0) { close(*fd); *fd = hi; } }
   posix_spawn_file_actions_t fa; posix_spawn_file_actions_init(&fa);
   posix_spawn_file_actions_adddup2(&fa, inp[0], 0); posix_spawn_file_actions_adddup2(&fa, outp[1], 1);
   posix_spawn_file_actions_addopen(&fa, 2, "/dev/null", O_WRONLY, 0);
